@@ -242,6 +242,10 @@ def _converted_ranges_hold_their_own_class(ctx):
             work.append((scheme, rc, "from_natives(%r)" % exprs[:2], lambda rc=rc, exprs=exprs: rc.from_natives(exprs[:2])))
         work.append((scheme, rc, "from_string", lambda scheme=scheme: VR.VersionRange.from_string("vers:%s/>=1.0.0|<2.0.0" % scheme)))
         work.append((scheme, rc, "from_versions", lambda rc=rc: rc.from_versions(["1.0.0", "2.0.0"])))
+        for other in (VR.NpmVersionRange, VR.DebianVersionRange, VR.PypiVersionRange, VR.MavenVersionRange):
+            # the text of this scheme parsed through ANOTHER range class as the receiver of from_string
+            work.append((scheme, rc, "from_string through %s" % other.__name__,
+                         lambda scheme=scheme, other=other: other.from_string("vers:%s/>=1.0.0|<2.0.0" % scheme)))
         work.append((scheme, rc, "github", lambda scheme=scheme: VR.build_range_from_github_advisory_constraint(scheme, ">= 1.0.0, < 2.0.0")))
         work.append((scheme, rc, "snyk", lambda scheme=scheme: VR.build_range_from_snyk_advisory_string(scheme, ">=1.0.0, <2.0.0")))
         work.append((scheme, rc, "snyk brackets", lambda scheme=scheme: VR.build_range_from_snyk_advisory_string(scheme, "[1.0.0,2.0.0)")))
